@@ -201,7 +201,7 @@ def evidence(ctx, p, K):
         for c_ in chol:
             # enclosing expression: 2.0 * np.sum(np.log(np.diag(<chol>)))
             par = [n for n in mm.body_nodes() if isinstance(n, ast.BinOp) and isinstance(n.op, ast.Mult) and any(x is c_ for x in ast.walk(n))]
-            good = good and len(par) >= 1 and any(norm_text(b.left) in ("2.0", "2") and norm_text(b.right).replace(" ", "").startswith("np.sum(np.log(np.diag(np.linalg.cholesky(") for b in par)
+            good = good and len(par) >= 1 and any(any(norm_text(two) in ("2.0", "2") and norm_text(rest).replace(" ", "").startswith("np.sum(np.log(np.diag(np.linalg.cholesky(") for two, rest in ((b.left, b.right), (b.right, b.left))) for b in par)
         ctx.ob(rule, mm.key + ":form", good, where=mm, node=chol[0] if chol else mm.node, construct=f"{len(chol)} cholesky-based evaluations", message="log det = 2 * sum(log(diag(cholesky(X))))")
     # the reduced quantities delete exactly the no-regularization rows AND columns
     for name, src in (("curvature_reg_matrix_reduced", "self.curvature_reg_matrix"), ("regularization_matrix_reduced", "self.regularization_matrix")):
